@@ -268,6 +268,7 @@ def main():
     for kind in ("log16", "log8"):
         for L, n in ((0, None), (2, None), (3, None), (3, 1), (3, 2), (5, 2)):
             obs.append(common.Ob(f"pointer threading in _add_ngram[{kind}] key length {L}, ngram {'>= len (symbolic)' if n is None else n}", c12.ob_ngram, (kind, L, n, tmo), hard_s=tmo / 1000 + 120, bounds={"sketch": kind, "key_len": L}))
+    obs.append(common.Ob("witness: log8 idealised merge harness reaches the log domain and saturation", realmode.ob_merge_ideal, (8, tmo, "WITNESS"), kind="witness", hard_s=tmo / 1000 * 3 + 120))
     wobs, wmeta = wrun.obligations("c06", tier)
     obs += wobs
     results = common.run_obligations(obs, progress=os.environ.get("VERIF_VERBOSE") == "1")
